@@ -141,6 +141,10 @@ class Explorer:
         self.cex_keys: dict[str, int] = {}
         self.max_cex = max_cex
         self.cex_key = cex_key
+        self.known_keys: set = set()           # keys of listed known findings: they never count towards the early stop
+        self.stop_after_unknown_cex = 200      # a tree this broken needs no further exploration: the violation is reported anyway
+        self.n_unknown_cex = 0
+        self.stopped_early = False
         self.prefixes: list[list] = []
         self.inconclusive: list[str] = []
         self.solver: z3.Solver = None  # type: ignore
@@ -353,6 +357,8 @@ class Explorer:
         key = self.cex_key(cex) if self.cex_key else cex.message
         n = self.cex_keys.get(key, 0)
         self.cex_keys[key] = n + 1
+        if key not in self.known_keys:
+            self.n_unknown_cex += 1
         if n < 3 and len(self.cex) < self.max_cex:
             cex.key = key
             self.cex.append(cex)
@@ -445,6 +451,10 @@ class Explorer:
                         self.stats.aborted += 1
                     except Inconclusive as e2:
                         self.inconclusive.append(str(e2))
+                if self.n_unknown_cex >= self.stop_after_unknown_cex:
+                    self.stopped_early = True
+                    self.inconclusive.append(f"exploration stopped after {self.n_unknown_cex} counterexamples")
+                    return
                 # backtrack
                 while len(self.plan) > self.n_prefix and self.plan[-1][0] + 1 >= len(self.plan[-1][1]):
                     self.plan.pop()
